@@ -197,8 +197,9 @@ class Gen:
         elif shape == "tuple":
             it["shape"] = "tuple"
             it["fields"] = [self.field(None, self.ty(depth, pool), allow=("skip", "docs")) for _ in range(r.choice([2, 3]))]
-            if all(f["attrs"].get("skip") for f in it["fields"]):
-                it["fields"][0]["attrs"] = {}
+            if r.random() < 0.06:           # every field skipped (serde: an empty array)
+                it["fields"] = [{"name": None, "ty": P(r.choice(["u8", "String", "bool"])), "attrs": {"skip": True, "default": True}} for _ in range(r.choice([2, 3]))]
+                self.tag("struct:tuple-all-skipped")
         elif shape == "newtype":
             it["shape"] = "tuple"
             it["fields"] = [self.field(None, self.ty(depth, pool), allow=("docs",))]
@@ -258,7 +259,10 @@ class Gen:
                 v["shape"], v["fields"] = "tuple", [self.field(None, ty, allow=("docs", "inline") if repr_ in ("external", "untagged") else ("docs",))]
             elif sh == "tuple":
                 v["shape"] = "tuple"
-                v["fields"] = [self.field(None, self.ty(depth, pool), allow=()) for _ in range(r.choice([2, 3]))]
+                v["fields"] = [self.field(None, self.ty(depth, pool), allow=("skip",)) for _ in range(r.choice([2, 3]))]
+                if r.random() < 0.12:       # every field skipped: serde keeps the tuple style (`{"V":[]}`), unlike a skipped newtype
+                    v["fields"] = [{"name": None, "ty": P(r.choice(["u8", "String", "bool"])), "attrs": {"skip": True, "default": True}} for _ in range(r.choice([2, 3]))]
+                    self.tag(f"variant:{repr_}/tuple-all-skipped")
             else:
                 v["shape"] = "named"
                 fns = r.sample(FIELD_NAMES, r.choice([1, 2, 3]))
